@@ -46,8 +46,29 @@ class Bindings:
         if ref and len(ref) == len(cur):
             self.rename = {c: r for c, r in zip(cur, ref) if c and r and c != r}
         bodies = [f] + crate.closures_of(f)
-        for b in bodies:
+        # helpers that did not exist on the reference tree are part of their caller: their parameters are bound to the arguments
+        from .ir import ref_fns
+        known = ref_fns().get(crate.name)
+        helper_bodies = []
+        if known is not None:
+            todo, seen_h = list(bodies), set()
+            while todo:
+                b0 = todo.pop()
+                for n, anc in walk(b0.hir):
+                    if n.get('k') == 'call':
+                        cp = callee(n)
+                        g = getattr(crate, 'fns', {}).get(cp)
+                        if g is not None and g.kind != 'Closure' and cp not in known and cp not in seen_h and cp != f.path and len(seen_h) < 8:
+                            seen_h.add(cp)
+                            for p_, a_ in zip(g.params, n['args']):
+                                self._bind(p_, ('let', a_), ())
+                            hb = [g] + crate.closures_of(g)
+                            helper_bodies += hb
+                            todo += hb
+        for b in bodies + helper_bodies:
             for i, p in enumerate(b.params):
+                if b in helper_bodies and not b.kind == 'Closure':
+                    continue     # bound to the call-site arguments above
                 if b is f and isinstance(p, dict) and p.get('k') == 'bind' and p.get('name') in self.rename:
                     p = dict(p, name=self.rename[p['name']])
                 self._bind(p, ('param', b.path, i), ())
